@@ -54,7 +54,7 @@ Proof.
   destruct k as [|k]; cbn in *.
   - rewrite Nat.add_0_r, Nat.eqb_refl. reflexivity.
   - assert (Ha : attr_eq q a x = false).
-    { unfold attr_eq. rewrite (Hsh a (or_introl eq_refl)). apply andb_false_r. }
+    { unfold attr_eq. rewrite (Hsh a (or_introl eq_refl)). destruct q; [apply andb_false_r|apply andb_false_r|reflexivity]. }
     rewrite Ha, orb_false_r.
     replace (Nat.eqb pos (pos + S k)) with false by (symmetry; apply Nat.eqb_neq; lia).
     f_equal. replace (pos + S k)%nat with (S pos + k)%nat by lia.
@@ -288,7 +288,7 @@ Definition two_a : list op :=
 (* the removal by equality (the code before the repair) takes the FIRST a when the
    second is detached; the identity-based model and the reference take the second *)
 Lemma detach_by_equality_refuted_l :
-  let s := run false empty_store two_a in
+  let s := run AQuirk empty_store two_a in
   kids_of (m_detach_by_equality s 2%N) 0%N = [2]%N /\
   kids_of (m_detach s 2%N) 0%N = [1]%N /\
   option_map (fun rs => kids_ids (r_forest rs) 0%N)
@@ -312,8 +312,9 @@ Definition attr_names (s : store) (x : id) : list str :=
   end.
 
 Lemma unset_by_equality_refuted_l :
-  attr_names (run true empty_store (two_attrs ++ [OUnset 0%N sqn])) 0%N = [sqn] /\
-  attr_names (run false empty_store (two_attrs ++ [OUnset 0%N sqn])) 0%N = [snn] /\
+  attr_names (run AQuirk empty_store (two_attrs ++ [OUnset 0%N sqn])) 0%N = [sqn] /\
+  attr_names (run AEq empty_store (two_attrs ++ [OUnset 0%N sqn])) 0%N = [snn] /\
+  attr_names (run AId empty_store (two_attrs ++ [OUnset 0%N sqn])) 0%N = [snn] /\
   ref_run empty_rstate (two_attrs ++ [OUnset 0%N sqn]) = None.
 Proof. vm_compute. repeat split. Qed.
 
